@@ -17,16 +17,19 @@ import (
 
 const earlyTolNs = 2_000_000 // a start counts as early only if it is more than 2 ms before the scheduled time
 
+// Signature of the recorded finding about direct starts at a time given to Schedule (see props/C07.findings.json).
+const sigDirectAtScheduled = "C07:waiting-task-started-directly-at-scheduled-time"
+
 type mtask struct {
 	promInFlight   bool    // the schedule handler saw the scheduled time come and has not yet called StartASAP
 	promCarry      []int64 // the scheduled times that promotion stands for
-	inert          bool  // created on a nil module: born cancelled, no max delay
-	maxDelayZero   bool  // last MaxDelay call set 0 (own books, not the implementation's snapshot)
-	execNo         int   // number of starts seen
-	inExec         bool  // between a start and the end of its deferred section
-	lastSubExec    int   // execution during which the last submission was made, -1 if none was in progress
-	lastSkipExecNo int   // execution during which the last skip-executing happened, -1
-	cancelIdx      int // index of the first cancel event, -1
+	inert          bool    // created on a nil module: born cancelled, no max delay
+	maxDelayZero   bool    // last MaxDelay call set 0 (own books, not the implementation's snapshot)
+	execNo         int     // number of starts seen
+	inExec         bool    // between a start and the end of its deferred section
+	lastSubExec    int     // execution during which the last submission was made, -1 if none was in progress
+	lastSkipExecNo int     // execution during which the last skip-executing happened, -1
+	cancelIdx      int     // index of the first cancel event, -1
 	cancelWaiting  bool
 	subs, starts   int
 	lastSubIdx     int
@@ -40,6 +43,23 @@ type mtask struct {
 	earlyCheck     []int64 // set at run-start when the task was only scheduled: the candidate times
 	earlyArmed     bool
 	earlyStartLine int
+
+	// books for the serial-queue clause on direct starts (starts by the schedule handler, not through the queue)
+	md         int64 // own book of the task's MaxDelay (ns): the default until a maxdelay call is seen
+	deadline   int64 // earliest instant at which the max delay of the last queueing call can have expired (0 = none)
+	userEA     int64 // the last time given to Schedule since the last queueing call with a max delay / start / Schedule(zero)
+	directPick *directPick
+}
+
+// directPick: what the monitor's own books said at the moment the schedule handler took a waiting task out of
+// the schedule in order to start it directly.
+type directPick struct {
+	now       int64
+	line      int
+	deadline  int64
+	userEA    int64
+	expired   bool // the max delay of the task's last queueing call had expired (2 ms tolerance)
+	scheduled bool // a time given to Schedule (after that queueing call) had come
 }
 
 type qhRun struct {
@@ -69,9 +89,11 @@ func monitor(c hxlib.Case, outs []string) (vs []hxlib.Violation) {
 	}
 	ts := make([]*mtask, scn.N)
 	for i := range ts {
-		ts[i] = &mtask{cancelIdx: -1, lastSubIdx: -1, lastStartIdx: -1, lastSkipExec: -1, lastSubExec: -1, lastSkipExecNo: -1}
+		ts[i] = &mtask{cancelIdx: -1, lastSubIdx: -1, lastStartIdx: -1, lastSkipExec: -1, lastSubExec: -1, lastSkipExecNo: -1, md: -1}
 	}
 	execWait := int64(60_000_000_000)
+	defMaxDelay := int64(60_000_000_000)
+	var lastClock int64 // latest reading of the harness clock seen in the log (lower bound for every later section)
 	// order books
 	stamp := 0
 	waitA, waitP, waitN := map[int]int{}, map[int]int{}, map[int]int{}
@@ -88,10 +110,16 @@ func monitor(c hxlib.Case, outs []string) (vs []hxlib.Violation) {
 		}
 		now, _ := strconv.ParseInt(f[1], 10, 64)
 		if f[0] == "i" {
+			if now > lastClock {
+				lastClock = now
+			}
 			switch f[2] {
 			case "consts":
 				if len(f) > 3 {
 					execWait, _ = strconv.ParseInt(f[3], 10, 64)
+				}
+				if len(f) > 4 {
+					defMaxDelay, _ = strconv.ParseInt(f[4], 10, 64)
 				}
 			case "end":
 				endNow = now
@@ -135,14 +163,34 @@ func monitor(c hxlib.Case, outs []string) (vs []hxlib.Violation) {
 			}
 			return -1
 		}
+		mdOf := func(t *mtask) int64 {
+			if t.md < 0 {
+				return defMaxDelay
+			}
+			return t.md
+		}
+		// a queueing call on an active task with a max delay: the delay cannot expire before (a clock reading
+		// taken before the call) + max delay; the max-delay entry replaces a time given to Schedule
+		armed := func(t *mtask) {
+			if d := mdOf(t); d != 0 {
+				t.deadline, t.userEA = lastClock+d, 0
+			}
+		}
+		// The time of an event is a reading of the harness clock taken at the end of the section, except for the
+		// queueing calls (reading recovered from the implementation's executeAt) and the not-due fetch (the
+		// implementation's own reading).
+		if !(act == "queue" || act == "queuep" || act == "asap" || (act == "shfetch" && len(f) > 3 && f[3] == "notdue")) && now > lastClock {
+			lastClock = now
+		}
 		switch act {
 		case "newinert":
 			if _, t := tk(3); t != nil {
-				t.inert, t.maxDelayZero = true, true
+				t.inert, t.maxDelayZero, t.md = true, true, 0
 			}
 		case "maxdelay":
 			if _, t := tk(3); t != nil && len(f) > 4 {
 				t.maxDelayZero = f[4] == "0"
+				t.md, _ = strconv.ParseInt(f[4], 10, 64)
 			}
 		case "finish":
 			if _, t := tk(3); t != nil {
@@ -157,6 +205,7 @@ func monitor(c hxlib.Case, outs []string) (vs []hxlib.Violation) {
 			if isCanceled(t) {
 				continue
 			}
+			armed(t)
 			t.lastSubIdx, t.userSub, t.lastSubExec = i, true, curExec(t)
 			if !t.maxDelayZero {
 				t.pendingSched = 0 // the max-delay entry replaces the scheduled time
@@ -187,6 +236,7 @@ func monitor(c hxlib.Case, outs []string) (vs []hxlib.Violation) {
 			if isCanceled(t) {
 				continue
 			}
+			armed(t)
 			if f[3] != "sh" {
 				t.lastSubIdx, t.userSub, t.lastSubExec = i, true, curExec(t)
 			}
@@ -209,12 +259,14 @@ func monitor(c hxlib.Case, outs []string) (vs []hxlib.Violation) {
 				// from the schedule and from both queues. Read in the implementation's favour: nothing is owed.
 				t.pendingSched = 0
 				t.lastSubIdx = -1
+				t.deadline, t.userEA = 0, 0
 				delete(waitA, k)
 				delete(waitP, k)
 				delete(waitN, k)
 				continue
 			}
 			t.subs++
+			t.userEA = x
 			t.schedTimes = append(t.schedTimes, x)
 			if !isCanceled(t) {
 				t.pendingSched, t.pendingIdx = x, i
@@ -226,6 +278,12 @@ func monitor(c hxlib.Case, outs []string) (vs []hxlib.Violation) {
 				t.cancelIdx = i
 			}
 		case "shfetch":
+			if len(f) > 4 && f[3] == "run" {
+				// the schedule handler takes a waiting task out of the schedule to start it directly (not through the queue)
+				if _, t := tk(4); t != nil {
+					t.directPick = newDirectPick(t, now, i)
+				}
+			}
 			if len(f) > 4 && f[3] == "asap" {
 				// the scheduled time of the task has come (observed by the schedule handler)
 				if _, t := tk(4); t != nil {
@@ -295,6 +353,16 @@ func monitor(c hxlib.Case, outs []string) (vs []hxlib.Violation) {
 			delete(waitN, k)
 			delete(pickedPrio, k)
 			delete(pickedNorm, k)
+			dp := t.directPick
+			if f[3] == "sh" {
+				t.directPick = nil
+				if dp == nil {
+					dp = newDirectPick(t, now, i)
+				}
+			}
+			if f[5] != "skip-stale" {
+				t.deadline, t.userEA = 0, 0 // the task left the schedule
+			}
 			switch f[5] {
 			case "skip-executing":
 				t.lastSkipExec, t.lastSkipExecNo = i, curExec(t)
@@ -324,6 +392,31 @@ func monitor(c hxlib.Case, outs []string) (vs []hxlib.Violation) {
 					t.schedTimes = append([]int64{}, t.promCarry...)
 				}
 				t.pendingSched = 0
+				if f[3] == "sh" && !dp.expired {
+					// "Queued tasks are started one after the other (the next one only after the previous returned, was
+					// cancelled or exceeded the execution-wait limit)". A start by the schedule handler bypasses the queue;
+					// it is read as the documented exception only if the max delay of the task's last queueing call has
+					// expired. Otherwise the task is a waiting task started out of turn, and the clause applies to it: the
+					// tasks started through the queue before it (exempted direct starts are not links of that chain) must
+					// have returned, been cancelled or exceeded the execution-wait limit.
+					for _, q := range qhRuns {
+						if q.ended || q.t == k || ts[q.t].cancelIdx >= 0 || now-q.startNow >= execWait {
+							continue
+						}
+						dl := "it has no max delay on the books (no queueing call with a max delay since it last left the schedule)"
+						if dp.deadline != 0 {
+							dl = fmt.Sprintf("the max delay of its last queueing call cannot expire before %d", dp.deadline)
+						}
+						if dp.scheduled {
+							add(sigDirectAtScheduled, fmt.Sprintf("task %d, waiting for its turn, was taken out of the schedule at %d (event %d) and started directly by the schedule handler at %d because a time given to Schedule (%d) had come, while task %d (started through the queue before) still runs, is not cancelled and is within the execution-wait limit; %s",
+								k, dp.now, dp.line, now, dp.userEA, q.t, dl), i)
+						} else {
+							add("C07:waiting-task-started-directly-before-max-delay", fmt.Sprintf("task %d, waiting for its turn, was taken out of the schedule at %d (event %d) and started directly by the schedule handler at %d, while task %d (started through the queue before) still runs, is not cancelled and is within the execution-wait limit; %s; no time given to Schedule had come either (last: %d)",
+								k, dp.now, dp.line, now, q.t, dl, dp.userEA), i)
+						}
+						break
+					}
+				}
 				if f[3] == "qh" {
 					qhRuns = append(qhRuns, &qhRun{t: k, startNow: now})
 				}
@@ -388,6 +481,12 @@ func monitor(c hxlib.Case, outs []string) (vs []hxlib.Violation) {
 		}
 	}
 	return vs
+}
+
+func newDirectPick(t *mtask, now int64, line int) *directPick {
+	return &directPick{now: now, line: line, deadline: t.deadline, userEA: t.userEA,
+		expired:   t.deadline != 0 && now >= t.deadline-earlyTolNs,
+		scheduled: t.userEA != 0 && now >= t.userEA-earlyTolNs}
 }
 
 func keys(m map[int]int) []int {
